@@ -9,6 +9,9 @@ impl/*       IC for concrete `_call`s: every proximal, default operator and expr
              the makers shared with C10): out-of-place result is a new range element that is neither
              the input, a stored vector nor a view; in-place result equals the out-of-place value
              whatever `out` held before (no stale read); x and stored vectors unchanged.
+pspace/*     ProductSpaceOperator._call for enumerated entry patterns of the operator matrix (every visiting ORDER of every non-empty subset of a
+             2 x 2 matrix, duplicates, empty rows, 2 x 3 / 3 x 2 samples) with arbitrary operators and inputs: in-place == out-of-place == row sums,
+             stale `out` content never read, out returned, x untouched.
 dispatch/*   bounded cross-check of the assumed Operator.__new__ contract: for every Operator subclass
              importable from odl the AST-derived (has_out, out_optional) is compared with the real
              _dispatch_call_args.
@@ -33,7 +36,7 @@ META = {
     ],
     'assumptions': ['A1', 'A2', 'A5', 'A7'],
     'not_decided': [
-        '_call of operators outside the makers: tensor_ops (MatrixOperator, sampling), pspace_ops, diff_ops, discr_ops, '
+        '_call of operators outside the makers: tensor_ops (MatrixOperator, sampling), pspace_ops other than ProductSpaceOperator (whose entry patterns are enumerated up to 2 x 2 / samples), diff_ops, discr_ops, '
         'ufunc_ops, Fourier / wavelet / ray transforms - not under contract in this property (diff_ops and resizing kernels are '
         'verified functionally in C13 / C16); conversion of array-likes by domain.element / range.element (C20)',
     ],
@@ -222,6 +225,119 @@ def unit_dispatch():
     return Unit('dispatch/all-operator-classes', run, funcs=[OP + '_dispatch_call_args'], kind='B')
 
 
+PSO = 'odl.operator.pspace_ops:'
+
+
+def unit_pspace_call(m, n, entries):
+    """ProductSpaceOperator._call for an m x n operator matrix whose COO entries are visited in the given ORDER (rows need not be sorted, several
+    operators per row, empty rows): with arbitrary operators A_k (Operator.__call__ by its contract) and arbitrary inputs, out-of-place and in-place
+    results are  out[i] == sum_{k: row_k == i} A_k(x[col_k])  (zero for an empty row) whatever `out` held before, `out` is returned as the very
+    object, x is untouched.  Proof per entry pattern (all inputs, all operators); the patterns are enumerated."""
+    def run(ctx):
+        I = ctx.I
+
+        def path(st):
+            tlib.install(st)
+            st.cuts.update(oplib.operator_cuts())
+            st.object_arrays = True
+            fr = ip.Frame(st)
+            X = makers.tspace(I, st, 'X', 'real')
+            ops = [AbsOp(I, 'A%d' % k, X, X, linear=False) for k in range(len(entries))]
+
+            class PVec(object):
+                def __init__(self, comps):
+                    self.comps = list(comps)
+
+                def pv_getitem(self, I_, fr_, idx):
+                    return self.comps[int(idx)]
+
+                def pv_setitem(self, I_, fr_, idx, val):
+                    self.comps[int(idx)] = val
+
+                def pv_iter(self, I_, fr_):
+                    return iter(list(self.comps))
+
+                def pv_getattr(self, I_, fr_, name):
+                    raise Unsupported('product space element .%s' % name)
+
+            class Ran(object):
+                def pv_getattr(self, I_, fr_, name):
+                    if name == 'zero':
+                        return ip.Builtin('zero', lambda I2, fr2, a, k: PVec([X.element(cont=VConst(0.0)) for _ in range(m)]))
+                    if name == '__len__':
+                        return ip.Builtin('len', lambda I2, fr2, a, k: m)
+                    raise Unsupported('range.%s' % name)
+
+                def pv_len(self, I_, fr_):
+                    return m
+
+            class Coo(object):
+                def pv_getattr(self, I_, fr_, name):
+                    if name == 'row':
+                        return [e[0] for e in entries]
+                    if name == 'col':
+                        return [e[1] for e in entries]
+                    if name == 'data':
+                        return [o.op for o in ops]
+                    raise Unsupported('ops.%s' % name)
+            op = ip.Obj(I.get_class(PSO + 'ProductSpaceOperator'))
+            op.fields.update({'_Operator__domain': None, '_Operator__range': Ran(), '_Operator__is_linear': False, '_ProductSpaceOperator__ops': Coo()})
+            x = PVec([X.element('x%d' % j) for j in range(n)])
+            x0 = [content(c) for c in x.comps]
+            inplace = st.decide_free('inplace') if hasattr(st, 'decide_free') else None
+            res = {}
+            callf = I.get_class(PSO + 'ProductSpaceOperator').lookup('_call')
+            f = I.class_entry_value(callf[0], '_call', callf[1])
+            try:
+                res['oop'] = I.call(f, [op, x], {}, fr)
+                out = PVec([X.element('old%d' % i) for i in range(m)])
+                objs = list(out.comps)
+                res['ip'] = I.call(f, [op, x, out], {}, fr)
+            except ip.PyRaise as e:
+                return ('raise', e.exc)
+            return ('ok', dict(res=res, out=out, objs=objs, x=x, x0=x0, ops=ops, fr=fr, X=X))
+        info = {'shape': [m, n], 'entries': [list(e) for e in entries]}
+        for st, (status, r) in ctx.explore(path):
+            if status == 'raise':
+                ctx.fail(st, 'no_raise', 'raises %s' % lib.exc_desc(r), info)
+                continue
+            low = st.lower
+            fr = r['fr']
+            want = []
+            for i in range(m):
+                acc = core._sc(0.0)
+                for k, (ri, cj) in enumerate(entries):
+                    if ri == i:
+                        acc = acc + low(oplib.app_abstract(I, fr, r['ops'][k].op, r['x0'][cj]))
+                want.append(acc)
+            oop, ipr = r['res']['oop'], r['res']['ip']
+            ctx.prove(st, 'out-of-place: a product-space element with one component per row', hasattr(oop, 'comps') and len(oop.comps) == m, info)
+            ctx.prove(st, 'in-place: `out` is returned as the very object, its components are the very objects', ipr is r['out'] and all(a is b for a, b in zip(ipr.comps, r['objs'])), info)
+            for i in range(m):
+                if hasattr(oop, 'comps') and len(oop.comps) == m:
+                    ctx.prove(st, 'out-of-place: component %d == sum of the operators of row %d' % (i, i), core.sc_eq(low(content(oop.comps[i])), want[i]), info)
+                ctx.prove(st, 'in-place: component %d == sum of the operators of row %d, whatever out held before' % (i, i), core.sc_eq(low(content(r['out'].comps[i])), want[i]), info)
+            for j in range(n):
+                ctx.prove(st, 'x[%d] is untouched' % j, core.sc_eq(low(content(r['x'].comps[j])), low(r['x0'][j])), info)
+    tag = '-'.join('%d%d' % e for e in entries) or 'empty'
+    return Unit('pspace/%dx%d/%s' % (m, n, tag), run, funcs=[PSO + 'ProductSpaceOperator._call'], config={'shape': [m, n], 'entries': [list(e) for e in entries]})
+
+
+def pspace_patterns(tier):
+    """entry patterns: every ORDER of every non-empty subset of the cells of a 2 x 2 matrix (64 patterns), a row visited three times, 3 x 2 samples"""
+    pats = []
+    cells = [(0, 0), (0, 1), (1, 0), (1, 1)]
+    for r in range(1, 5):
+        for sub in itertools.combinations(cells, r):
+            for perm in itertools.permutations(sub):
+                pats.append((2, 2, perm))
+    pats.append((2, 3, ((0, 0), (1, 1), (0, 1), (1, 0), (0, 2))))
+    pats.append((3, 2, ((2, 0), (0, 1), (2, 1), (0, 0))))
+    pats.append((2, 2, ((0, 0), (0, 0), (1, 1))))        # the same cell twice (COO allows duplicates: they add up)
+    pats.append((3, 1, ()))
+    return pats
+
+
 def units(tier, seed):
     from contracts.props import C10, C04
     us = []
@@ -244,11 +360,53 @@ def units(tier, seed):
             u = C10.unit_expr_class(c, field, props=('C03',))
             u.name = 'impl/' + u.name
             us.append(u)
+    for m, n, entries in pspace_patterns(tier):
+        us.append(unit_pspace_call(m, n, entries))
     us.append(unit_dispatch())
     us.append(C10.unit_canary())
     return us
 
 
+def replay_pspace(ob):
+    import os
+    import sys
+    root = os.environ.get('PYVC_REPO', '/repo')
+    if root not in sys.path:
+        sys.path.insert(0, root)
+    import numpy as np
+    import odl
+    from odl.util import COOMatrix
+    cfg = ob.get('config') or {}
+    m, n = cfg['shape']
+    entries = [tuple(e) for e in cfg['entries']]
+    X = odl.rn(3)
+    rng = np.random.default_rng(5)
+    mats = [rng.standard_normal((3, 3)) for _ in entries]
+    if not entries:
+        return {'reproduced': False, 'detail': 'empty operator matrix: no native concretisation'}
+    data = np.empty(len(entries), dtype=object)
+    for k, M in enumerate(mats):
+        data[k] = odl.MatrixOperator(M, X, X)
+    coo = COOMatrix(data, (np.array([e[0] for e in entries]), np.array([e[1] for e in entries])), (m, n))
+    op = odl.ProductSpaceOperator(coo, domain=X ** n, range=X ** m)
+    x = op.domain.element([rng.standard_normal(3) for _ in range(n)])
+    x0 = x.copy()
+    want = [sum((mats[k].dot(x0[e[1]].asarray()) for k, e in enumerate(entries) if e[0] == i), np.zeros(3)) for i in range(m)]
+    oop = op(x)
+    out = op.range.element([rng.standard_normal(3) for _ in range(m)])
+    ret = op(x, out=out)
+    for i in range(m):
+        if not np.allclose(oop[i].asarray(), want[i]):
+            return {'reproduced': True, 'detail': 'out-of-place row %d: %r, expected %r (entries visited in the order %r)' % (i, oop[i].asarray(), want[i], entries), 'input': cfg}
+        if not np.allclose(out[i].asarray(), want[i]):
+            return {'reproduced': True, 'detail': 'in-place row %d: %r, expected (and out-of-place) %r (entries visited in the order %r)' % (i, out[i].asarray(), want[i], entries), 'input': cfg}
+    if ret is not out or (x - x0).norm() != 0:
+        return {'reproduced': True, 'detail': 'out not returned / x modified', 'input': cfg}
+    return {'reproduced': False, 'detail': 'in-place == out-of-place == row sums for MatrixOperator entries in this order'}
+
+
 def replay(ob):
+    if ob.get('unit', '').startswith('pspace/'):
+        return replay_pspace(ob)
     from contracts import replay_forms
     return replay_forms.replay(ob)
